@@ -313,16 +313,16 @@ func CorpusNames(seed int64, tier string) []*Case {
 		}
 		addM(pl, rl)
 	}
-	// interfaces of 12 methods each
-	for i := 0; i < len(methods); i += 12 {
-		j := i + 12
-		if j > len(methods) {
-			j = len(methods)
-		}
-		it := Iface{Name: fmt.Sprintf("N%03d", i/12), Methods: methods[i:j]}
-		src := newSrc("nsrc", pkgs, it)
+	// one method per interface (a recorded finding's shape in one method must not
+	// hide what happens to another), all interfaces in one source package
+	var ifs []Iface
+	for i, m := range methods {
+		ifs = append(ifs, Iface{Name: fmt.Sprintf("N%04d", i), Methods: []Method{m}})
+	}
+	src := newSrc("nsrc", pkgs, ifs...)
+	for i, it := range ifs {
 		for k, cfg := range []Cfg{{Dest: "implicit"}, {Dest: "implicit", Stub: true, WithResets: true}, {Dest: "other", Stub: true}} {
-			if tier != "thorough" && k > 0 && (i/12+k+int(seed))%3 != 0 {
+			if tier != "thorough" && (i+k+int(seed))%3 != 0 {
 				continue
 			}
 			cfg.Args = []string{it.Name}
